@@ -1095,3 +1095,297 @@ theorem solo_end_none (c : Cfg) (o : Option (State α)) :
   cases o <;> simp [soloStep, mgr_step, mgr_recycle, process]
 
 end Noir.EventTimeWindow
+
+/-! ## Stream control protocol (helper lemmas for Props/C05WinOp.lean) -/
+namespace Noir.WindowOp
+
+variable {κ σ α β : Type}
+
+theorem grammarGo_weaken {γ : Type} : ∀ (l : List (Elem γ)) (b : Bool), grammarGo false l = true → grammarGo b l = true := by
+  intro l
+  induction l with
+  | nil => intro b h; simp [grammarGo] at h
+  | cons e l _ =>
+    intro b h
+    cases b with
+    | false => exact h
+    | true =>
+      cases e with
+      | term =>
+        cases l with
+        | nil => simp [grammarGo] at h
+        | cons e' l' => simp [grammarGo] at h
+      | item a => simpa [grammarGo] using h
+      | ts a t => simpa [grammarGo] using h
+      | wm t => simpa [grammarGo] using h
+      | flushBatch => simpa [grammarGo] using h
+      | far => simpa [grammarGo] using h
+
+/-- data elements in front of a well-formed remainder keep it well formed -/
+theorem grammarGo_data_prefix {γ : Type} : ∀ (ds X : List (Elem γ)) (b : Bool), (∀ o ∈ ds, o.isData = true) →
+    grammarGo false X = true → grammarGo b (ds ++ X) = true := by
+  intro ds
+  induction ds with
+  | nil => intro X b _ h; exact grammarGo_weaken X b h
+  | cons d ds ih =>
+    intro X b hd h
+    have hd' : ∀ o ∈ ds, o.isData = true := fun o ho => hd o (by simp [ho])
+    have := ih X false hd' h
+    have hdd := hd d (by simp)
+    cases d with
+    | item a => simpa [grammarGo] using this
+    | ts a t => simpa [grammarGo] using this
+    | wm t => simp [Elem.isData] at hdd
+    | flushBatch => simp [Elem.isData] at hdd
+    | far => simp [Elem.isData] at hdd
+    | term => simp [Elem.isData] at hdd
+
+/-- a manager emits nothing at `Terminate` -/
+def Quiet (m : Mgr σ α β) (s : σ) : Prop := (m.step s .term).2 = []
+
+/-- every manager that `retain` keeps is the result of a step and not recyclable -/
+theorem broadcast_retained (m : Mgr σ α β) (e : Elem α) : ∀ (ws : List (κ × σ)),
+    ∀ p ∈ (broadcast m e ws).1, ∃ s, p.2 = (m.step s e).1 ∧ m.recycle p.2 = false := by
+  intro ws
+  induction ws with
+  | nil => intro p h; simp [broadcast] at h
+  | cons q rest ih =>
+    obtain ⟨k, s⟩ := q
+    intro p hp
+    simp only [broadcast] at hp
+    split at hp
+    · exact ih p hp
+    · rename_i hr
+      simp only [List.mem_cons] at hp
+      rcases hp with rfl | hp
+      · exact ⟨s, rfl, by simpa using hr⟩
+      · exact ih p hp
+
+theorem broadcast_quiet (m : Mgr σ α β) (e : Elem α) : ∀ (ws : List (κ × σ)),
+    (∀ p ∈ ws, (m.step p.2 e).2 = []) → (broadcast m e ws).2.1 = [] := by
+  intro ws
+  induction ws with
+  | nil => intro _; rfl
+  | cons q rest ih =>
+    obtain ⟨k, s⟩ := q
+    intro h
+    have h1 := h (k, s) (by simp)
+    have h2 := ih (fun p hp => h p (by simp [hp]))
+    simp only at h1
+    simp [broadcast, h1, h2]
+
+/-- the grammar along a run; `b` = "right after a `FlushAndRestart`", in which case every manager
+    in the map is quiet at `Terminate` -/
+theorem runUnits_grammar [DecidableEq κ] (m : Mgr σ α β)
+    (hq : ∀ s, m.recycle (m.step s .far).1 = false → Quiet m (m.step s .far).1) :
+    ∀ (es : List (Elem (κ × α))) (st : State κ σ) (b : Bool),
+      (b = true → ∀ p ∈ st.windows, Quiet m p.2) → grammarGo b es = true →
+      grammarGo b (runUnits m st es).flatten = true := by
+  intro es
+  induction es with
+  | nil => intro st b _ h; simp [grammarGo] at h
+  | cons e es ih =>
+    intro st b hb h
+    simp only [runUnits, List.flatten_cons]
+    cases e with
+    | item p =>
+      obtain ⟨k, x⟩ := p
+      have h' : grammarGo false es = true := by simpa [grammarGo] using h
+      have := ih (step m st (.item (k, x))).1 false (fun h => by cases h) h'
+      obtain ⟨ds, hds, hsh⟩ := step_shape m st (.item (k, x))
+      rw [hsh]; simp only [ctrlOf, List.append_nil]
+      exact grammarGo_data_prefix ds _ b hds this
+    | ts p t =>
+      obtain ⟨k, x⟩ := p
+      have h' : grammarGo false es = true := by simpa [grammarGo] using h
+      have := ih (step m st (.ts (k, x) t)).1 false (fun h => by cases h) h'
+      obtain ⟨ds, hds, hsh⟩ := step_shape m st (.ts (k, x) t)
+      rw [hsh]; simp only [ctrlOf, List.append_nil]
+      exact grammarGo_data_prefix ds _ b hds this
+    | flushBatch =>
+      have h' : grammarGo false es = true := by simpa [grammarGo] using h
+      have := ih (step m st .flushBatch).1 false (fun h => by cases h) h'
+      obtain ⟨ds, hds, hsh⟩ := step_shape m st .flushBatch
+      rw [hsh]; simp only [ctrlOf, List.append_assoc, List.singleton_append]
+      exact grammarGo_data_prefix ds _ b hds (by simpa [grammarGo] using this)
+    | wm w =>
+      have h' : grammarGo false es = true := by simpa [grammarGo] using h
+      have := ih (step m st (.wm w)).1 false (fun h => by cases h) h'
+      obtain ⟨ds, hds, hsh⟩ := step_shape m st (.wm w)
+      rw [hsh]; simp only [ctrlOf, List.append_assoc, List.singleton_append]
+      exact grammarGo_data_prefix ds _ b hds (by simpa [grammarGo] using this)
+    | far =>
+      have h' : grammarGo true es = true := by simpa [grammarGo] using h
+      have hinv : ∀ p ∈ (step m st .far).1.windows, Quiet m p.2 := by
+        intro p hp
+        obtain ⟨s, h1, h2⟩ := broadcast_retained m .far st.windows p hp
+        rw [h1] at h2 ⊢; exact hq s h2
+      have := ih (step m st .far).1 true (fun _ => hinv) h'
+      obtain ⟨ds, hds, hsh⟩ := step_shape m st .far
+      rw [hsh]; simp only [ctrlOf, List.append_assoc, List.singleton_append]
+      exact grammarGo_data_prefix ds _ b hds (by simpa [grammarGo] using this)
+    | term =>
+      cases es with
+      | cons e' es' => simp [grammarGo] at h
+      | nil =>
+        have hbt : b = true := by simpa [grammarGo] using h
+        have hquiet := broadcast_quiet m .term st.windows (fun p hp => hb hbt p hp)
+        simp [runUnits, step, hquiet, grammarGo, hbt]
+
+/-- outputs do not depend on the recorded panic class -/
+theorem runUnits_panic_irrel [DecidableEq κ] (m : Mgr σ α β) : ∀ (es : List (Elem (κ × α))) (ws : List (κ × σ))
+    (p p' : Option String), runUnits m ⟨ws, p⟩ es = runUnits m ⟨ws, p'⟩ es := by
+  intro es
+  induction es with
+  | nil => intros; rfl
+  | cons e es ih =>
+    intro ws p p'
+    cases e with
+    | item q => obtain ⟨k, x⟩ := q; simp only [runUnits, step]; rw [ih _ _ (p'.or _)]
+    | ts q t => obtain ⟨k, x⟩ := q; simp only [runUnits, step]; rw [ih _ _ (p'.or _)]
+    | flushBatch => simp only [runUnits, step]; rw [ih ws p p']
+    | wm w => simp only [runUnits, step]; rw [ih _ _ (p'.or _)]
+    | far => simp only [runUnits, step]; rw [ih _ _ (p'.or _)]
+    | term => simp only [runUnits, step]; rw [ih _ _ (p'.or _)]
+
+/-- the control elements of a stream, payload types forgotten -/
+def ctrlPart {γ : Type} : Elem γ → Option (Elem Unit)
+  | .wm w => some (.wm w)
+  | .flushBatch => some .flushBatch
+  | .term => some .term
+  | .far => some .far
+  | _ => none
+
+theorem filterMap_ctrlPart_data {γ : Type} (ds : List (Elem γ)) (h : ∀ o ∈ ds, o.isData = true) :
+    ds.filterMap ctrlPart = [] := by
+  induction ds with
+  | nil => rfl
+  | cons d ds ih =>
+    have hd := h d (by simp)
+    have := ih (fun o ho => h o (by simp [ho]))
+    cases d <;> simp_all [ctrlPart, Elem.isData]
+
+theorem runUnits_ctrl [DecidableEq κ] (m : Mgr σ α β) : ∀ (es : List (Elem (κ × α))) (st : State κ σ),
+    (runUnits m st es).flatten.filterMap ctrlPart = es.filterMap ctrlPart := by
+  intro es
+  induction es with
+  | nil => intros; rfl
+  | cons e es ih =>
+    intro st
+    obtain ⟨ds, hds, hsh⟩ := step_shape m st e
+    simp only [runUnits, List.flatten_cons, List.filterMap_append, hsh, ih, filterMap_ctrlPart_data ds hds,
+      List.nil_append]
+    cases e <;> simp [ctrlOf, ctrlPart, List.filterMap_cons]
+
+end Noir.WindowOp
+
+namespace Noir.CountWindow
+open Noir.WindowOp
+variable {α : Type}
+
+theorem groups_nil (N S : Nat) : groups N S ([] : List α) = [] := by
+  unfold groups; rw [groupsIdx]
+  have : ([] : List α).length < N ∨ S = 0 ∨ N = 0 := by simp only [List.length_nil]; omega
+  rw [dif_pos this]; rfl
+
+/-- the specification of a stream with a `FlushAndRestart` inside splits there: what follows is
+    specified from that part alone -/
+theorem spec_append_far (c : Cfg) : ∀ (a : List (Elem α)) (cur : List α) (b : List (Elem α)),
+    spec c cur (a ++ .far :: b) = spec c cur (a ++ [.far]) ++ spec c [] b := by
+  intro a
+  induction a with
+  | nil =>
+    intro cur b
+    have h1 : spec c cur (.far :: b) = groups c.size c.slide cur ++
+        endGroup c (residual c.size c.slide cur) ++ spec c [] b := rfl
+    have h2 : spec c cur [.far] = groups c.size c.slide cur ++
+        endGroup c (residual c.size c.slide cur) ++ groups c.size c.slide [] := rfl
+    rw [List.nil_append, List.nil_append, h1, h2, groups_nil, List.append_nil]
+  | cons e a ih =>
+    intro cur b
+    cases e with
+    | item x => exact ih (cur ++ [x]) b
+    | ts x t => exact ih (cur ++ [x]) b
+    | wm w => exact ih cur b
+    | flushBatch => exact ih cur b
+    | far =>
+      show groups c.size c.slide cur ++ endGroup c (residual c.size c.slide cur) ++ spec c [] (a ++ .far :: b) =
+        (groups c.size c.slide cur ++ endGroup c (residual c.size c.slide cur) ++ spec c [] (a ++ [.far])) ++ spec c [] b
+      rw [ih [] b]; simp only [List.append_assoc]
+    | term =>
+      show groups c.size c.slide cur ++ endGroup c (residual c.size c.slide cur) ++ spec c [] (a ++ .far :: b) =
+        (groups c.size c.slide cur ++ endGroup c (residual c.size c.slide cur) ++ spec c [] (a ++ [.far])) ++ spec c [] b
+      rw [ih [] b]; simp only [List.append_assoc]
+
+end Noir.CountWindow
+
+/-! ## Reachable states of the count manager, non-empty groups (Props/C12WinOp.lean) -/
+namespace Noir.CountWindow
+open Noir.WindowOp
+variable {α : Type}
+
+/-- every state the manager reaches from its initial state, on ANY input, satisfies the
+    representation invariant (for some open group) -/
+theorem reachable_inv (c : Cfg) (hS : 1 ≤ c.slide) (hSN : c.slide ≤ c.size) :
+    ∀ (n : Nat) (es : List (Elem α)), es.length ≤ n → ∃ cur, Inv c (stateAfter c ([] : List (Slot α)) es) cur := by
+  intro n
+  induction n with
+  | zero =>
+    intro es h
+    have : es = [] := List.length_eq_zero_iff.mp (by omega)
+    subst this
+    exact ⟨[], inv_init c (by omega)⟩
+  | succ n ih =>
+    intro es hlen
+    rcases split_end es with hn | ⟨seg, e, rest, rfl, hn, he⟩
+    · exact ⟨_, (results_segment c hS hSN es hn).2⟩
+    · obtain ⟨_, inv⟩ := results_segment c hS hSN seg hn
+      obtain ⟨e1, _⟩ := process_end c hS (by omega) _ _ inv e he
+      have hrest : rest.length ≤ n := by simp at hlen; omega
+      rw [(results_append c seg (e :: rest) []).2]
+      simp only [stateAfter, e1]
+      exact ih rest hrest
+
+/-- the state of the solo instance is the state of the plain manager -/
+theorem soloState_eq (c : Cfg) : ∀ (es : List (Elem α)) (o : Option (List (Slot α))),
+    (soloState (mgr c) o es).getD [] = stateAfter c (o.getD []) es := by
+  intro es
+  induction es with
+  | nil => intros; rfl
+  | cons e es ih =>
+    intro o
+    simp only [soloState, stateAfter, ih, (soloStep_eq c o e).2]
+
+/-- every group of the specification is non-empty -/
+theorem spec_nonempty (c : Cfg) (hS : 1 ≤ c.slide) (hSN : c.slide ≤ c.size) :
+    ∀ (es : List (Elem α)) (cur : List α), ∀ g ∈ spec c cur es, g ≠ [] := by
+  have hg : ∀ (cur : List α), ∀ g ∈ groups c.size c.slide cur, g ≠ [] := by
+    intro cur g hg h
+    have := groups_length c.size c.slide (by omega) (by omega) cur g hg
+    rw [h] at this; simp at this; omega
+  intro es
+  induction es with
+  | nil => intro cur g h; exact hg cur g h
+  | cons e es ih =>
+    intro cur g h
+    have hend : ∀ g ∈ groups c.size c.slide cur ++ endGroup c (residual c.size c.slide cur) ++ spec c [] es, g ≠ [] := by
+      intro g h
+      simp only [List.mem_append] at h
+      rcases h with (h | h) | h
+      · exact hg cur g h
+      · unfold endGroup at h
+        split at h
+        · simp at h
+        · rename_i hc
+          simp only [List.mem_singleton] at h; subst h
+          intro h0; rw [h0] at hc; simp at hc
+      · exact ih [] g h
+    cases e with
+    | item x => exact ih _ g h
+    | ts x t => exact ih _ g h
+    | wm w => exact ih _ g h
+    | flushBatch => exact ih _ g h
+    | far => exact hend g h
+    | term => exact hend g h
+
+end Noir.CountWindow
